@@ -17,7 +17,8 @@ def run(tier, pid="C04", mode="rt"):
                   "INT64_MIN/MAX, floats with exponents -300..295 incl. those printed in exponent form, +-0.0, empty and "
                   "40-deep containers) x all 64 serialize option sets (thorough: all 64 on the first 60 trees, a rotating "
                   "subset afterwards): the text is read by the TLA+ RFC 8259 reader, by JSON::parse in default and strict "
-                  "mode, re-serialized with sorted keys, and copied; distinct = option sets exercised")
+                  "mode, re-serialized with sorted keys, copied, copy-assigned onto live destinations, onto itself and from its "
+                  "own members; distinct = option sets exercised")
     else:
         c.rule = ("300 (thorough 5000) grammar-generated standard documents (all number shapes, every escape, whitespace in "
                   "all legal positions, nesting 500), the same with one documented extension applied, with trailing "
